@@ -12,7 +12,8 @@ EXPLANATION = (
 DECIDED = ["R18a slot scan: monotone range, removed slots skipped, sign by is_valid_edge (DOM)",
            "R18b ElementSearch::search dispatch (TABLE/MUST)",
            "R15f the ids condition compares signed ids (shared with C15)",
-           "R08g every removal releases its slot through free_index (shared with C08)"]
+           "R08g every removal releases its slot through free_index (shared with C08)",
+           "R13a-f undo recording / inverse table of the transaction commands (shared with C13)"]
 UNDECIDED = ["completeness over histories (that every existing element occupies a slot below capacity)"]
 
 G = "agdb::graph::GraphImpl::"
@@ -143,4 +144,8 @@ def run(ctx):
     # ids of re-created / scanned elements depend on the free-list discipline of the graph (R08g, shared with C08)
     from rules import C08
     C08.slot_release_rule(ctx)
+    # an elements search lists what the graph's slots hold: a rollback that leaves the slot table one entry off makes it
+    # list an id that never existed (undo recording and inverse table of C13, re-evaluated)
+    from rules import C13
+    C13.run(ctx)
     return 0
